@@ -1,1 +1,104 @@
-// harnesses added below
+//! property C18: exporting a CEL value to JSON is total and faithful (one harness per value kind)
+use crate::sym::{any, assume};
+use cel_interpreter::Value;
+use std::mem::forget;
+use std::sync::Arc;
+
+#[cfg(kani)]
+use crate::conv::{fixed_random_state, stub_format};
+
+#[cfg_attr(kani, kani::proof)]
+#[cfg_attr(kani, kani::unwind(6))]
+#[cfg_attr(kani, kani::stub(alloc::fmt::format, stub_format))]
+pub fn c18_scalars() {
+    let i: i64 = any();
+    let u: u64 = any();
+    let b: bool = any();
+    let __v1 = Value::Int(i);
+    let r = __v1.json();
+    assert!(matches!(&r, Ok(j) if j.as_i64() == Some(i)));
+    forget(r);
+    let __v2 = Value::UInt(u);
+    let r = __v2.json();
+    assert!(matches!(&r, Ok(j) if j.as_u64() == Some(u)));
+    forget(r);
+    let __v3 = Value::Bool(b);
+    let r = __v3.json();
+    assert!(matches!(&r, Ok(serde_json::Value::Bool(x)) if *x == b));
+    forget(r);
+    let __v4 = Value::Null;
+    let r = __v4.json();
+    assert!(matches!(&r, Ok(serde_json::Value::Null)));
+    forget(r);
+}
+/// finite doubles are exported as that number, non-finite doubles as null
+#[cfg_attr(kani, kani::proof)]
+#[cfg_attr(kani, kani::unwind(6))]
+#[cfg_attr(kani, kani::stub(alloc::fmt::format, stub_format))]
+pub fn c18_doubles() {
+    let f: f64 = any();
+    let __v5 = Value::Float(f);
+    let r = __v5.json();
+    if f.is_finite() {
+        assert!(matches!(&r, Ok(j) if j.as_f64().map(|x| x.to_bits()) == Some(f.to_bits()) || (f == 0.0 && j.as_f64() == Some(0.0))));
+    } else {
+        assert!(matches!(&r, Ok(serde_json::Value::Null)));
+    }
+    forget(r);
+}
+/// function values are not representable: an error at top level and inside a list, never a panic
+#[cfg_attr(kani, kani::proof)]
+#[cfg_attr(kani, kani::unwind(6))]
+#[cfg_attr(kani, kani::stub(alloc::fmt::format, stub_format))]
+pub fn c18_function_values_are_errors() {
+    let f = Value::Function(Arc::new(String::new()), None);
+    let r = f.json();
+    assert!(r.is_err());
+    forget(r);
+    let i: i64 = any();
+    let l = Value::List(Arc::new(vec![Value::Int(i), Value::Function(Arc::new(String::new()), None)]));
+    let r = l.json();
+    assert!(r.is_err());
+    forget(r);
+    forget(l);
+    forget(f);
+}
+/// lists become arrays of the exported elements, in order
+#[cfg_attr(kani, kani::proof)]
+#[cfg_attr(kani, kani::unwind(6))]
+#[cfg_attr(kani, kani::stub(alloc::fmt::format, stub_format))]
+pub fn c18_list_becomes_array() {
+    let i: i64 = any();
+    let b: bool = any();
+    let l = Value::List(Arc::new(vec![Value::Int(i), Value::Bool(b), Value::Null]));
+    let r = l.json();
+    match &r {
+        Ok(serde_json::Value::Array(a)) => {
+            assert!(a.len() == 3);
+            assert!(a[0].as_i64() == Some(i));
+            assert!(a[1] == serde_json::Value::Bool(b));
+            assert!(a[2].is_null());
+        }
+        _ => assert!(false),
+    }
+    forget(r);
+    forget(l);
+}
+/// durations export their nanosecond count; a duration beyond 64-bit nanoseconds is an error, not a panic
+#[cfg_attr(kani, kani::proof)]
+#[cfg_attr(kani, kani::unwind(6))]
+#[cfg_attr(kani, kani::stub(alloc::fmt::format, stub_format))]
+pub fn c18_durations() {
+    let s: i64 = any();
+    assume(s >= -(i64::MAX / 1000) && s <= i64::MAX / 1000); // chrono::Duration::seconds panics outside this range
+    let d = chrono::Duration::seconds(s);
+    let __v6 = Value::Duration(d);
+    let r = __v6.json();
+    let exact = (s as i128) * 1_000_000_000;
+    if exact >= i64::MIN as i128 && exact <= i64::MAX as i128 {
+        assert!(matches!(&r, Ok(j) if j.as_i64() == Some(exact as i64)));
+    } else {
+        assert!(r.is_err());
+    }
+    forget(r);
+}
